@@ -743,7 +743,7 @@ impl<'a, F: Float, K: 'a + Permutable<F>> SolverState<'a, F, K> {
                 if self.alpha[i].reached_upper() {
                     lb1 = F::max(lb1, self.gradient[i]);
                 } else if self.alpha[i].reached_lower() {
-                    ub1 = F::max(ub1, self.gradient[i]);
+                    ub1 = F::min(ub1, self.gradient[i]);
                 } else {
                     nfree1 += 1;
                     sum_free1 += self.gradient[i];
@@ -754,7 +754,7 @@ impl<'a, F: Float, K: 'a + Permutable<F>> SolverState<'a, F, K> {
                 if self.alpha[i].reached_upper() {
                     lb2 = F::max(lb2, self.gradient[i]);
                 } else if self.alpha[i].reached_lower() {
-                    ub2 = F::max(ub2, self.gradient[i]);
+                    ub2 = F::min(ub2, self.gradient[i]);
                 } else {
                     nfree2 += 1;
                     sum_free2 += self.gradient[i];
